@@ -170,7 +170,32 @@ def _cat2(i, a, b, node):
 
 # ------------------------------------------------------------------ pointwise operators
 
-def _lift2(i, a, b, f, elem, node, name="pw"):
+def _tid(x):
+    if isinstance(x, Arr):
+        return ("arr", x.data.get_id(), tuple(s.get_id() if is_z3(s) else s for s in x.shape))
+    if is_z3(x):
+        return ("t", x.get_id())
+    return ("c", repr(x))
+
+
+def _cached(i, key, build):
+    """same pointwise expression over the same operand contents -> the same contents term (fresh array object)"""
+    cache = i.ctx.ghost.setdefault("_pw_cache", {})
+    if key in cache:
+        c = cache[key]
+        return Arr(c.shape, c.data, c.dtype, fresh=True)
+    r = build()
+    cache[key] = Arr(r.shape, r.data, r.dtype, fresh=True)
+    return r
+
+
+def _lift2(i, a, b, f, elem, node, name="pw", opkey=None):
+    if opkey is not None:
+        return _cached(i, (opkey, _tid(a), _tid(b)), lambda: _lift2(i, a, b, f, elem, node, name))
+    return _lift2_(i, a, b, f, elem, node, name)
+
+
+def _lift2_(i, a, b, f, elem, node, name="pw"):
     """pointwise binary op with scalar broadcasting"""
     A = a if isinstance(a, Arr) else None
     B = b if isinstance(b, Arr) else None
@@ -208,20 +233,20 @@ def _binop(i, op, a, b, node):
     if isinstance(op, (ast.BitAnd, ast.BitOr, ast.BitXor)):
         if ea == Bool and eb == Bool:
             f = {ast.BitAnd: z3.And, ast.BitOr: z3.Or, ast.BitXor: z3.Xor}[type(op)]
-            return _lift2(i, a, b, lambda x, y: f(to_z3(x, Bool), to_z3(y, Bool)), Bool, node, "mask")
+            return _lift2(i, a, b, lambda x, y: f(to_z3(x, Bool), to_z3(y, Bool)), Bool, node, "mask", opkey=type(op).__name__)
         raise Unsupported("bitwise op on non-bool arrays", node)
     if ea in (Str, Val) or eb in (Str, Val):
         raise Unsupported("arithmetic on opaque (Str/Val) arrays", node)
     res = Real if (Real in (ea, eb) or isinstance(op, ast.Div)) else Int
     cv = lambda x: to_z3(x, res)  # noqa
     if isinstance(op, ast.Add):
-        return _lift2(i, a, b, lambda x, y: cv(x) + cv(y), res, node)
+        return _lift2(i, a, b, lambda x, y: cv(x) + cv(y), res, node, opkey="Add")
     if isinstance(op, ast.Sub):
-        return _lift2(i, a, b, lambda x, y: cv(x) - cv(y), res, node)
+        return _lift2(i, a, b, lambda x, y: cv(x) - cv(y), res, node, opkey="Sub")
     if isinstance(op, ast.Mult):
-        return _lift2(i, a, b, lambda x, y: cv(x) * cv(y), res, node)
+        return _lift2(i, a, b, lambda x, y: cv(x) * cv(y), res, node, opkey="Mult")
     if isinstance(op, ast.Div):
-        return _lift2(i, a, b, lambda x, y: cv(x) / cv(y), res, node)
+        return _lift2(i, a, b, lambda x, y: cv(x) / cv(y), res, node, opkey="Div")
     if isinstance(op, ast.Pow) and isinstance(b, int) and b == 2:
         return _lift2(i, a, b, lambda x, y: cv(x) * cv(x), res, node)
     raise Unsupported("array operator %s" % type(op).__name__, node)
@@ -234,8 +259,9 @@ def _unary(i, op, v, node):
     check_live(v, node)
     if isinstance(op, ast.Invert) and v.elem_sort == Bool:
         if v.ndim == 1:
-            return define1(i, v.shape[0], Bool, lambda k: z3.Not(z3.Select(v.data, k)), "inv")
-        return define2(i, v.shape[0], v.shape[1], Bool, lambda r, c: z3.Not(v.at(r, c)), "inv")
+            return _cached(i, ("inv", _tid(v)), lambda: define1(i, v.shape[0], Bool, lambda k: z3.Not(z3.Select(v.data, k)), "inv",
+                                                                alts=[lambda k: z3.Select(v.data, k)]))
+        return _cached(i, ("inv", _tid(v)), lambda: define2(i, v.shape[0], v.shape[1], Bool, lambda r, c: z3.Not(v.at(r, c)), "inv"))
     if isinstance(op, ast.USub) and v.elem_sort in (Int, Real):
         if v.ndim == 1:
             return define1(i, v.shape[0], v.elem_sort, lambda k: -z3.Select(v.data, k), "neg")
@@ -278,7 +304,7 @@ def _compare(i, op, a, b, node):
             raise Unsupported("ordering comparison on %s arrays" % es, node)
         f = {ast.Lt: lambda x, y: cv(x) < cv(y), ast.LtE: lambda x, y: cv(x) <= cv(y),
              ast.Gt: lambda x, y: cv(x) > cv(y), ast.GtE: lambda x, y: cv(x) >= cv(y)}[type(op)]
-    return _lift2(i, a, b, f, Bool, node, "cmp")
+    return _lift2(i, a, b, f, Bool, node, "cmp", opkey="cmp" + type(op).__name__)
 
 
 @hook("inplace")
